@@ -255,7 +255,8 @@ class RealRib(object):
         self.sim.step({'k': 'boot'})
         self.cid = 0
         self.connected = False
-        self.problem = None
+        self.problem = None      # the harness could not set the scene (not a statement about C19)
+        self.trouble = None      # the bookkeeping itself raised / disturbed the session
 
     # -- events
     def connect(self):
@@ -288,9 +289,9 @@ class RealRib(object):
         """returns the handler callbacks the frame caused ('update' / 'update_error')"""
         o = self.sim.step({'k': 'chunk', 'c': self.cid, 'hex': frame.hex()})
         if o.get('escaped') or o.get('hang'):
-            self.problem = 'delivery escaped: %r' % (o.get('escaped') or 'hang',)
+            self.trouble = 'delivery of an UPDATE escaped: %r' % (o.get('escaped') or 'hang',)
         if o['state'] != 'ESTABLISHED':
-            self.problem = 'session left Established on an UPDATE: %s' % o['state']
+            self.trouble = 'session left Established on an UPDATE: %s' % o['state']
         return [x[1] for x in o['outs'] if x[0] == 'handler']
 
     def send(self, pm, constructible=True):
@@ -311,7 +312,7 @@ class RealRib(object):
         self.sim.world.flush_threads()
         self.sim.world.take_outs()
         if st != 'ok':
-            self.problem = 'send path raised %r' % (v,)
+            self.trouble = 'send path raised %r' % (v,)
             return {'status': False}
         return v
 
@@ -320,7 +321,7 @@ class RealRib(object):
         p = self.sim.peering.fsm.protocol
         st, v = with_budget(S.EVENT_BUDGET, getattr(p, fn), *args)
         if st != 'ok':
-            self.problem = '%s raised %r' % (fn, v)
+            self.trouble = '%s raised %r' % (fn, v)
         return v
 
     # -- observation
